@@ -233,6 +233,14 @@ theorem lru_touch_absent_error {s : LRU.State κ ν} (h : LRU.Inv s) (k : κ) (h
       rw [List.find?_eq_none]; intro x hx; simpa using hk x hx
     simp [LRU.specTouch, this] at h2
 
+/-- `size()`, `front()`, `back()` read the recency list -/
+theorem lru_observers (s : LRU.State κ ν) :
+    LRU.size s = (LRU.abs s).length ∧ LRU.front s = (LRU.abs s).head?.map (·.2) ∧
+      LRU.back s = (LRU.abs s).getLast?.map (·.2) := by
+  refine ⟨LRU.size_eq s, ?_, ?_⟩
+  · simp only [LRU.front, LRU.abs, List.head?_map, Option.map_map]; rfl
+  · simp only [LRU.back, LRU.abs, List.getLast?_map, Option.map_map]; rfl
+
 /-- `find` yields the entry of the key, `end()` iff the key is absent -/
 theorem lru_find_spec {s : LRU.State κ ν} (h : LRU.Inv s) (k : κ) :
     LRU.find s k = (LRU.abs s).find? (fun e => e.1 == k) := LRU.find_refines h k
@@ -456,6 +464,29 @@ theorem bv_ofVector_spec (hB : 0 < B) (bits : BV.Bits) :
   · have hb : (bits.length % B != 0) = true := by simpa using h
     simp [hb, h]
 
+/-- `count()` and `countmasked(j)` of the whole vector -/
+theorem bv_count_spec {v : BV.Bits} (h : BV.Inv B v) :
+    BV.count v = ((BV.abs B v).map (List.countP (fun b => b))).sum ∧
+      (∀ j, j < B → BV.countmasked B v j = (BV.abs B v).countP (fun blk => blk.getD j false)) ∧
+      (BV.abs B v).flatten = v :=
+  ⟨BV.count_eq h, fun _ hj => BV.countmasked_eq v hj, BV.abs_flatten h⟩
+
+/-- "`std::bitset` semantics": the block operations the model uses (`bShl`, `bShr`, `bNot`, `bAnd`, `bOr`, `bXor`) are
+    the machine operations on the number the block stands for (`BV.toNat`, bit `j` has weight `2^j`): shifts are
+    multiplication modulo `2^B` / division by `2^n`, `~` is the `B`-bit complement, `& | ^` are bitwise; the number
+    determines the block -/
+theorem bv_bitset_semantics {a b : BV.Bits} (hl : a.length = b.length) (n : Nat) :
+    BV.toNat a < 2 ^ a.length ∧
+      BV.toNat (BV.bShl a n) = (BV.toNat a * 2 ^ n) % 2 ^ a.length ∧
+      BV.toNat (BV.bShr a n) = BV.toNat a / 2 ^ n ∧
+      BV.toNat (BV.bNot a) = 2 ^ a.length - 1 - BV.toNat a ∧
+      BV.toNat (BV.bAnd a b) = BV.toNat a &&& BV.toNat b ∧
+      BV.toNat (BV.bOr a b) = BV.toNat a ||| BV.toNat b ∧
+      BV.toNat (BV.bXor a b) = BV.toNat a ^^^ BV.toNat b ∧
+      (BV.toNat a = BV.toNat b → a = b) :=
+  ⟨BV.toNat_lt a, BV.toNat_bShl a n, BV.toNat_bShr a n, BV.toNat_bNot a, (BV.toNat_bitwise hl).1, (BV.toNat_bitwise hl).2.1,
+    (BV.toNat_bitwise hl).2.2, BV.toNat_inj hl⟩
+
 /-- `getBit_addr_inj`: distinct (block, bit) pairs are distinct bits -/
 theorem bv_getBit_addr_inj {i j i' j' : Nat} (hj : j < B) (hj' : j' < B) (h : i * B + j = i' * B + j') : i = i' ∧ j = j' :=
   BV.addr_inj hj hj' h
@@ -463,6 +494,8 @@ theorem bv_getBit_addr_inj {i j i' j' : Nat} (hj : j < B) (hj' : j' < B) (h : i 
 example : BV.abs 3 (BV.run 3 [] [.resize 2 false, .setOne 0 1 true, .assignBits 1 [true, true, false], .shl 1 1, .xorBits 0 [true, true, true], .assignRef 1 0])
     = [[true, false, true], [true, false, true]] := by decide
 example : ∃ v : BV.Bits, BV.Inv 3 v ∧ 1 < BV.size 3 v := ⟨BV.mk 3 2, by unfold BV.Inv; decide, by decide⟩
+example : BV.toNat [true, false, true] = 5 ∧ BV.toNat (BV.bShl [true, false, true] 1) = 2 ∧ BV.toNat (BV.bShr [true, false, true] 2) = 1 := by
+  decide
 example : BV.ofVector 3 [true, false, true, true] = none ∧
     (BV.ofVector 3 [true, false, true, true, true, false]).map (BV.abs 3) = some [[true, false, true], [true, true, false]] := by
   decide
@@ -552,6 +585,26 @@ theorem sl_modify_iterator_refines {s : SL.State α} (h : SL.Inv s) {m : SL.MIt}
 theorem sl_runs_refine (ops : List (SL.Op α)) :
     SL.Rel (SL.run ⟨SL.empty, none⟩ ops) (SL.specRun ⟨[], none⟩ ops) :=
   SL.run_refines ops SL.rel_empty
+
+/-- the same, spelled out in observable terms: after every history the iteration shows the abstract sequence,
+    `size()` is its length, `empty()` holds iff it is empty, and a live modify iterator reads the element at the
+    abstract cursor (`none` = `end()`) -/
+theorem sl_runs_observable (ops : List (SL.Op α)) :
+    let w := SL.run ⟨SL.empty, none⟩ ops
+    let sp := SL.specRun ⟨[], none⟩ ops
+    SL.Inv w.s ∧ SL.items w.s = sp.l ∧ w.s.size = (sp.l.length : Int) ∧ (SL.isEmpty w.s = true ↔ sp.l = []) ∧
+      (w.m.isSome ↔ sp.pos.isSome) ∧ (∀ m j, w.m = some m → sp.pos = some j → SL.mDeref w.s m = sp.l[j]?) := by
+  intro w sp
+  have h : SL.Rel w sp := SL.run_refines ops SL.rel_empty
+  refine ⟨h.inv, h.items, ?_, ?_, ?_, ?_⟩
+  · rw [h.inv.size, h.len]
+  · rw [SL.isEmpty_iff h.inv, h.items]
+  · have := h.it
+    cases hm : w.m <;> cases hp : sp.pos <;> simp [hm, hp, SL.ItRel] at this ⊢
+  · intro m j hm hp
+    have := h.it
+    rw [hm, hp] at this
+    rw [SL.mDeref_eq h.inv this, h.items]
 
 example : SL.items (SL.run (⟨SL.empty, none⟩ : SL.World Int)
     [.pushBack 1, .pushBack 2, .pushFront 0, .mBegin, .mInc, .mIns 7, .mRem, .mIns 8, .assignSelf, .mEnd, .mIns 9, .delNext 0, .pushBack 5]).s
